@@ -479,12 +479,8 @@ func (r *remoteStorageReader) readAtCompressedFrame(bs []byte, off int64) (int, 
 		return 0, io.EOF
 	}
 
-	cBs := make([]byte, clen)
-	if _, err := r.readAtRaw(cBs, off+4); err != nil {
-		return 0, err
-	}
-
-	dec, err := newDecompressReader(r.compressionFormat, bytes.NewReader(cBs))
+	// the frame is fetched while it is decompressed: the length it announces never sizes an allocation
+	dec, err := newDecompressReader(r.compressionFormat, io.NewSectionReader(rawReaderAt{r}, off+4, int64(clen)))
 	if err != nil {
 		return 0, err
 	}
@@ -501,6 +497,15 @@ func (r *remoteStorageReader) readAtCompressedFrame(bs []byte, off int64) (int, 
 		return n, io.EOF
 	}
 	return n, nil
+}
+
+// rawReaderAt exposes readAtRaw as an io.ReaderAt.
+type rawReaderAt struct {
+	r *remoteStorageReader
+}
+
+func (ra rawReaderAt) ReadAt(bs []byte, off int64) (int, error) {
+	return ra.r.readAtRaw(bs, off)
 }
 
 // parseCompressionFormat extracts singleapp's MetaCompressionFormat
